@@ -911,7 +911,16 @@ def run(ctx):
         # a tensor factory whose signature has an array as default value, called twice: M9 excludes arrays inside
         # ConvertibleTensor.concrete (their `==` is not a bool), so this corner is covered by a directed history
         fa = call("multiply", "a, a -> a", [["F", "def_array_default"], T((4,))])
-        directed = [d8, d8[::-1], [fa, dict(fa)]] + directed
+        # a backend chosen by `with` must win over a backend that an earlier plain call resolved (and memoised) from the
+        # tensor types: plain call first, then the same tensor types inside `with` -- with graph=True (the text names the
+        # backend's functions) and with an operation that the `with` backend does not support
+        s0 = call("sum", "a [b]", [T((2, 3))])
+        w1 = call("sum", "a [b]", [T((2, 3))], graph=True, **{"with": ["numpy.einsum"]})
+        w2 = call("flip", "a [b]", [T((2, 3))], **{"with": ["numpy.einsum"]})
+        d0 = call("dot", "a [b], [b] c -> a c", [T((2, 3)), T((3, 2))])
+        w3 = call("dot", "a [b], [b] c -> a c", [T((2, 3)), T((3, 2))], graph=True, **{"with": ["numpy.numpylike"]})
+        w4 = call("dot", "a [b], [b] c -> a c", [T((2, 3)), T((3, 2))], graph=True, **{"with": ["numpy.einsum", "numpy.numpylike"]})
+        directed = [d8, d8[::-1], [fa, dict(fa)], [s0, w1], [s0, w2], [d0, w3, w4]] + directed
         broken = bool(ctx.broken) or not full_theorem
         n_hist = (20 if ctx.quick else 500) if not broken else (24 if ctx.quick else 800)
         t0 = time.time()
